@@ -378,7 +378,7 @@ def run(ctx):
     tier = ctx.tier
     M = 4
     cfg = tlc.make_cfg(constants=dict(M=M), spec="Spec", invariants=["JWisFermi", "SimplifyOK", "NormalForm", "SwapRuleOK"])
-    r = tlc.run("JordanWigner", cfg, timeout=3000)
+    r = tlc.run("JordanWigner", cfg, vacuity=True, timeout=3000)
     ctx.add_tlc(r, "JordanWigner M=4: all strings x all occupation states, exchange rule")
     if r["violated"]:
         ctx.violation(f"C17:spec:{r['violated']}", "JordanWigner violates " + r["violated"], {"tlc": r.get("error_text", "")[:2000]})
